@@ -352,3 +352,97 @@ pub fn prof(profile: Profile, n: u64, seed: u64, max_k: u32) {
         println!("{:.3}s run={} oti={:?} ks={:?} nrx={} events={} reps={:?}", r.0, r.1, r.2, &block_sizes(&r.2)[..1], r.3, r.4, r.5);
     }
 }
+
+/// `rqsim rundigests <property> <n>`: one line per run index with a digest of everything the run
+/// decided (resolved scenario, outcome, simulated ticks). Used by tools/determinism.sh to show that a
+/// run is a pure function of (VERIF_SEED, run index) whatever the worker count or process.
+pub fn rundigests(ctx: &Ctx, prop: &str, n: u64) -> i32 {
+    let seed = ctx.seed;
+    let lines: Vec<String> = match prop {
+        "C01" | "C08" | "C18" | "C07" => {
+            let profile = match prop {
+                "C01" => Profile::C01,
+                "C08" => Profile::C08,
+                "C18" => Profile::C18,
+                _ => Profile::C07,
+            };
+            let oracles = oracles_for(profile);
+            par_fold(
+                n,
+                ctx.workers,
+                16,
+                |run, acc: &mut Vec<String>| -> Result<(), ()> {
+                    let out = simulate(run_seed(seed, stream_of(profile), run), profile, oracles, profile == Profile::C07, 400);
+                    let mut d = crate::prng::Digest::new();
+                    d.str(&serde_json::to_string(&out.scenario).unwrap());
+                    d.u64(out.ticks);
+                    d.str(&format!("{:?}", out.result.as_ref().err().map(|f| &f.oracle)));
+                    if let Some(ex) = &out.exec {
+                        if let Some(t) = &ex.transcript {
+                            d.str(&t.digest.hex());
+                        }
+                        d.str(&format!("{:?}", ex.counters.0));
+                    }
+                    d.str(&format!("{:?}", out.faults.0));
+                    acc.push(format!("{run} {}", d.hex()));
+                    Ok(())
+                },
+                |a, b| a.extend(b),
+                vec![],
+            )
+            .0
+        }
+        "C02" => par_fold(
+            n,
+            ctx.workers,
+            64,
+            |run, acc: &mut Vec<String>| -> Result<(), ()> {
+                let sc = crate::c02::generate(run_seed(seed, 2, run), true);
+                let mut c = Counters::default();
+                let r = crate::c02::execute(&sc, &mut c, None);
+                let mut d = crate::prng::Digest::new();
+                d.str(&serde_json::to_string(&sc).unwrap());
+                d.str(&match r {
+                    Ok(o) => format!("ok {} {} {} {}", o.prefix_checks, o.singular_at_ge_k, o.decoded, o.final_set_hash),
+                    Err(f) => format!("fail {}", f.oracle),
+                });
+                acc.push(format!("{run} {}", d.hex()));
+                Ok(())
+            },
+            |a, b| a.extend(b),
+            vec![],
+        )
+        .0,
+        #[cfg(feature = "rq-std")]
+        "C16" => par_fold(
+            n,
+            ctx.workers,
+            64,
+            |run, acc: &mut Vec<String>| -> Result<(), ()> {
+                let h = crate::c16::generate(run_seed(seed, 16, run));
+                let mut c = Counters::default();
+                let r = crate::c16::execute(&h, &mut c, None);
+                let mut d = crate::prng::Digest::new();
+                d.str(&serde_json::to_string(&h).unwrap());
+                d.str(&match r {
+                    Ok(o) => format!("ok {} {} {}", o.executed, o.skipped, o.shape),
+                    Err(f) => format!("fail {}", f.oracle),
+                });
+                d.str(&format!("{:?}", c.0));
+                acc.push(format!("{run} {}", d.hex()));
+                Ok(())
+            },
+            |a, b| a.extend(b),
+            vec![],
+        )
+        .0,
+        _ => {
+            eprintln!("rundigests: unknown property {prop}");
+            return 2;
+        }
+    };
+    for l in lines {
+        println!("{l}");
+    }
+    0
+}
